@@ -231,3 +231,169 @@ def rule_cfg_cover(ctx, R):
     if unknown:
         # a coverage gap of the checker, not a defect of the code: exit 2
         raise AnalysisBroken('CFG-COVER: conditionals on instruction-set macros that no analysed configuration toggles: %s' % ', '.join(unknown))
+
+
+# ---------------------------------------------------------------------------------------------------------------------------
+# [RVV-VLEN] the run-time test that selects the vector kernels admits only vector lengths the kernels were written for
+
+_NO_VL = ('vreinterpret', 'vundefined', 'vlmul', 'vget', 'vset', 'vcreate', 'vsetvl', 'vlenb')
+
+
+def _strip_comments(t):
+    t = re.sub(r'/\*.*?\*/', lambda m: re.sub(r'[^\n]', ' ', m.group(0)), t, flags=re.S)
+    return re.sub(r'//[^\n]*', '', t)
+
+
+def _split_args(s):
+    out, depth, cur = [], 0, ''
+    for ch in s:
+        if ch in '([{':
+            depth += 1
+        elif ch in ')]}':
+            depth -= 1
+        if ch == ',' and depth == 0:
+            out.append(cur.strip())
+            cur = ''
+        else:
+            cur += ch
+    if cur.strip():
+        out.append(cur.strip())
+    return out
+
+
+def rvv_kernel_needs(path):
+    """{function name: (VLEN in bits that its RVV intrinsic calls need, evidence)} for the functions defined in one intrinsic-based unit.
+    An intrinsic __riscv_<op>_<t><SEW>m<LMUL>(..., vl) operates on vl elements of SEW bits in LMUL registers: it needs VLEN >= vl * SEW / LMUL (else the
+    hardware silently clamps vl and the remaining elements are not processed)."""
+    t = _strip_comments(open(path, errors='replace').read())
+    # top-level function bodies
+    funcs = {}
+    for m in re.finditer(r'\b([A-Za-z_][A-Za-z0-9_]*)\s*\(([^;{}()]|\([^()]*\))*\)\s*\{', t):
+        name = m.group(1)
+        if name in ('if', 'for', 'while', 'switch'):
+            continue
+        # only at brace depth 0
+        if t[:m.start()].count('{') != t[:m.start()].count('}'):
+            continue
+        i = m.end()
+        depth = 1
+        while i < len(t) and depth:
+            depth += {'{': 1, '}': -1}.get(t[i], 0)
+            i += 1
+        funcs[name] = (t[m.end():i - 1], t[:m.start()].count('\n') + 1)
+    direct, callees = {}, {}
+    for name, (body, line) in funcs.items():
+        need, ev = 0, None
+        for m in re.finditer(r'\b__riscv_([a-z0-9]+)_[a-z0-9_]*?([uif])(\d+)m(f?)(\d)\w*\s*\(', body):
+            op = m.group(1)
+            if op.startswith(_NO_VL):
+                continue
+            i = m.end()
+            depth = 1
+            while i < len(body) and depth:
+                depth += {'(': 1, ')': -1}.get(body[i], 0)
+                i += 1
+            args = _split_args(body[m.end():i - 1])
+            vl = args[-1] if args else ''
+            if not re.match(r'^\d+[uUlL]*$', vl):
+                mm = re.search(r'\b(?:const|constexpr)\s+\w+\s+%s\s*=\s*(\d+)\s*;' % re.escape(vl), body + t) if re.match(r'^\w+$', vl) else None
+                if not mm:
+                    raise AnalysisBroken('RVV-VLEN: vector length argument %r of %s in %s (%s) is not a constant' % (vl, m.group(0)[:40], name, os.path.basename(path)))
+                vl = mm.group(1)
+            n = int(re.match(r'\d+', vl).group(0))
+            sew, lm = int(m.group(3)), int(m.group(5))
+            bits = n * sew * lm if m.group(4) else -(-n * sew // lm)
+            if bits > need:
+                need, ev = bits, '%s...) with vl = %d: %d x %d bits in %s%d register(s)' % (m.group(0)[:-1].strip(), n, n, sew, '1/' if m.group(4) else '', lm)
+        direct[name] = (need, ev)
+        callees[name] = set(c for c in re.findall(r'\b([A-Za-z_][A-Za-z0-9_]*)\s*\(', body) if c in funcs and c != name)
+    out = {}
+    for name in funcs:
+        seen, todo, best = set(), [name], (0, None)
+        while todo:
+            x = todo.pop()
+            if x in seen:
+                continue
+            seen.add(x)
+            if direct[x][0] > best[0]:
+                best = direct[x]
+            todo += list(callees[x])
+        out[name] = best + (funcs[name][1],)
+    return out
+
+
+def rule_rvv_vlen(ctx, R):
+    import decoder as _dec
+    R.rule('RVV-VLEN', 'every call of an RVV software-AES kernel in aes_hash.cpp is reachable only when the CPU reports the V extension with a vector length of at least what the kernel\'s intrinsic calls need '
+           '(max over its calls, and those of its helpers, of vl x SEW / LMUL); with a shorter vector the hardware clamps vl and half of the AES lanes are never computed', min_instances=4)
+    unit = os.path.join(ctx.repo, 'src', 'aes_hash_rv64_vector.cpp')
+    if not os.path.exists(unit):
+        raise AnalysisBroken('RVV-VLEN: src/aes_hash_rv64_vector.cpp not found')
+    needs = rvv_kernel_needs(unit)
+    F = astq.Facts(ctx, 'K3')
+    R.saw(config='K3')
+    lens = (0, 64, 128, 256, 512, 1024, 65536)
+    n = 0
+
+    def ev(nod, rvv, ln):
+        nod = strip_all(nod)
+        v_ = val(nod)
+        if v_ is not None:
+            return v_
+        if nod['k'] == 'Bin':
+            a_, b_ = ev(nod['l'], rvv, ln), ev(nod['r'], rvv, ln)
+            op = nod['op']
+            if op == '&&':
+                return 0 if (a_ == 0 or b_ == 0) else (None if None in (a_, b_) else 1)
+            if op == '||':
+                return 1 if ((a_ not in (0, None)) or (b_ not in (0, None))) else (None if None in (a_, b_) else 0)
+            if None in (a_, b_):
+                return None
+            f_ = {'>=': lambda: a_ >= b_, '>': lambda: a_ > b_, '<': lambda: a_ < b_, '<=': lambda: a_ <= b_, '==': lambda: a_ == b_, '!=': lambda: a_ != b_}.get(op)
+            return None if f_ is None else int(f_())
+        if nod['k'] == 'Un' and nod.get('op') == '!':
+            a_ = ev(nod['e'], rvv, ln)
+            return None if a_ is None else int(not a_)
+        if nod['k'] == 'Call':
+            nm = nod.get('name')
+            if nm == 'hasRVV':
+                return rvv
+            if nm == 'getRVV_Length':
+                return ln
+            try:
+                g = F.func(nod.get('q') or nm)
+            except AnalysisBroken:
+                return None
+            body = g.get('body')
+            if body and len(body.get('s', [])) == 1 and body['s'][0]['k'] == 'Return' and not g['params']:
+                return ev(body['s'][0]['e'], rvv, ln)
+        return None
+    for f in F.in_file('aes_hash.cpp'):
+        if not f.get('body'):
+            continue
+        kcalls = [c for c in calls(f['body']) if c.get('name') in needs and c.get('name', '').endswith('_RVV')]
+        if not kcalls:
+            continue
+        R.saw(fn=f['q'])
+        for p in _dec.paths(f['body']):
+            for e_ in p.events:
+                if isinstance(e_, tuple):
+                    continue
+                for c in calls(e_):
+                    nm = c.get('name')
+                    if nm not in needs or not nm.endswith('_RVV'):
+                        continue
+                    need, why, kline = needs[nm]
+                    if not need:
+                        raise AnalysisBroken('RVV-VLEN: no RVV intrinsic call with a vector length found in %s' % nm)
+                    bad = []
+                    for rvv in (0, 1):
+                        for ln in lens:
+                            feas = all(ev(c_, rvv, ln) in (None, int(t_)) or (t_ and ev(c_, rvv, ln) not in (0, None)) for c_, t_ in p.conds)
+                            if feas and not (rvv == 1 and ln >= need):
+                                bad.append('hasRVV=%d VLEN=%d' % (rvv, ln))
+                    n += 1
+                    R.check(not bad, '%s -> %s' % (f['q'], nm), loc(c, f), expected='called only with the V extension and VLEN >= %d (%s, src/aes_hash_rv64_vector.cpp:%d)' % (need, why, kline),
+                            found='also reachable with ' + ', '.join(bad[:3]) if bad else 'guarded')
+    if n < 4:
+        raise AnalysisBroken('RVV-VLEN: only %d calls of RVV AES kernels found in aes_hash.cpp (expected 4: the software instance of each of the four functions)' % n)
